@@ -74,6 +74,17 @@ class Array(T):
         return "%s[%d]%s" % (self.elem.ref(scope), self.cap, "'" if self.ext else "")
 
 
+# While a schema is printed as two files, references from the main file into the library file
+# are qualified with the import alias (set by Schema.split_texts for the duration of the print).
+_SPLIT = {"lib": None, "alias": None, "in_lib": False, "nested_ref": False}
+
+
+def top_of(d):
+    while getattr(d, "parent", None) is not None:
+        d = d.parent
+    return d
+
+
 class Named(T):
     """A definition with a name, living in a scope (parent: Message or None=top)."""
 
@@ -91,6 +102,11 @@ class Named(T):
     def ref(self, scope=None):
         """Name by which this definition is referenced from inside `scope`
         (a Message or None for top level)."""
+        if _SPLIT["lib"] is not None and not _SPLIT["in_lib"] and id(top_of(self)) in _SPLIT["lib"]:
+            # defined in the imported file: always the full dotted path behind the alias
+            if self.parent is not None:
+                _SPLIT["nested_ref"] = True
+            return _SPLIT["alias"] + "." + ".".join(self.path())
         mine = self.path()
         enclosing = []
         cur = scope
@@ -211,6 +227,72 @@ class Schema:
         if st and st.get("crlf"):
             text = text.replace("\n", "\r\n")
         return text
+
+    # ------------------------------------------------------- two-file printing
+    def _top_deps(self, d):
+        """Top-level definitions a definition refers to (through fields, nested definitions,
+        alias targets and array elements)."""
+        out = set()
+
+        def ty(t):
+            k = getattr(t, "kind", None)
+            if k == "array":
+                ty(t.elem)
+            elif k in ("message", "enum", "alias"):
+                out.add(id(top_of(t)))
+
+        def rec(x):
+            if x.kind == "alias":
+                ty(x.target)
+            elif x.kind == "message":
+                for nd in x.nested:
+                    rec(nd)
+                for f in x.fields:
+                    ty(f.type)
+
+        rec(d)
+        out.discard(id(d))
+        return out
+
+    def split_texts(self, lib_names, lib_proto: str, lib_file: str, alias: str = "lib"):
+        """Print the schema as a main file importing a library file. The library holds the
+        top-level definitions named in `lib_names` plus everything they refer to (so the
+        library is self-contained); `Packet` always stays in the main file. Returns
+        (main_text, lib_text) or (text, None) if nothing ends up in the library. Moving
+        definitions between files does not change the wire format."""
+        by_id = {id(d): d for d in self.defs}
+        lib = {id(d) for d in self.defs if getattr(d, "name", None) in set(lib_names) and d.kind in ("message", "enum", "alias") and d.name != "Packet"}
+        work = list(lib)
+        while work:
+            cur = by_id[work.pop()]
+            for dep in self._top_deps(cur):
+                if dep not in lib and dep in by_id:
+                    lib.add(dep)
+                    work.append(dep)
+        lib = {i for i in lib if by_id[i].name != "Packet"}
+        if not lib or any(d.kind == "const" for d in self.defs):
+            return self.text(), None
+        self._noise = None
+        try:
+            _SPLIT.update(lib=lib, alias=alias, in_lib=True, nested_ref=False)
+            out = ["// generated schema (library part)", "proto %s" % lib_proto, ""]
+            for d in self.defs:
+                if id(d) in lib:
+                    out.extend(self._print_def(d, 0, None))
+                    out.append("")
+            lib_text = "\n".join(out) + "\n"
+            _SPLIT.update(in_lib=False)
+            out = ["// generated schema (main part)", "proto %s" % self.name, "", 'import %s "%s"' % (alias, lib_file), ""]
+            for d in self.defs:
+                if id(d) not in lib:
+                    out.extend(self._print_def(d, 0, None))
+                    out.append("")
+            main_text = "\n".join(out) + "\n"
+        finally:
+            # (did the main file refer to a definition NESTED in a message of the library?)
+            self.split_nested_ref = bool(_SPLIT["nested_ref"])
+            _SPLIT.update(lib=None, alias=None, in_lib=False, nested_ref=False)
+        return main_text, lib_text
 
     def _semi(self):
         n = self._noise
